@@ -237,6 +237,16 @@ def f_no_headers_sep(m):
     m["body"] = b"\r\nbody starting with an empty line\r\n"
 
 
+def f_hdr_none(m):
+    # no header fields at all (a note saved as a file): the message starts with the empty line that ends the (empty) header, and its
+    # text has an empty line of its own -- "the first empty line" of the message and "the end of the header" are the same place only here
+    for k in ("from", "to", "subject", "msgid", "date"):
+        m[k] = None
+    m["extra"] = []
+    m["ctype"] = None
+    m["body"] = b"first paragraph of a note\r\n\r\nsecond paragraph\r\n"
+
+
 def f_mime_empty_boundary(m):
     # a multipart whose boundary parameter is empty: the server has to invent one to render it, and must invent the same one every time
     m["ctype"] = b'Content-Type: multipart/mixed; boundary=""'
@@ -282,7 +292,7 @@ def build(feats) -> tuple[bytes, dict]:
         hdrs.append(_b(name) + b": " + val)
     if m["ctype"]:
         hdrs.append(m["ctype"])
-    raw = b"\r\n".join(hdrs) + b"\r\n\r\n" + m["body"]
+    raw = (b"\r\n".join(hdrs) + b"\r\n\r\n" if hdrs else b"\r\n") + m["body"]
     if m["nl"] == b"\n":
         raw = raw.replace(b"\r\n", b"\n")
     m["feats"] = list(feats)
